@@ -2,26 +2,30 @@
 (***************************************************************************)
 (* Case enumeration for property C14 (see Upgrade.tla).                    *)
 (*                                                                         *)
-(* A state is one case c = [req, cfg].  Initial states: the fully valid    *)
-(* upgrade request under each of the four configurations (PSK set / unset  *)
-(* x obfuscation on / off).  The only action replaces the value of ONE     *)
-(* field that still has its valid value (method, path, upgrade extension,  *)
-(* one of the six headers) by one of its other values, as long as fewer    *)
-(* than MaxDev fields deviate.  Reachable states = all requests that       *)
+(* A state is one case c = [req, cfg, pick].  Initial states: the fully    *)
+(* valid upgrade request under each configuration (PSK set / unset x       *)
+(* obfuscation on / off x the backends of UseBackends).  Action Deviate     *)
+(* replaces the value of ONE field that still has its valid value (method, *)
+(* path, upgrade extension, one of the six headers) by one of its other    *)
+(* values, as long as fewer than MaxDev fields deviate.  Reachable states = all requests that       *)
 (* differ from the valid one in at most MaxDev fields:                     *)
 (*   MaxDev = 2 : every single deviation and ALL PAIRS of deviations       *)
 (*   MaxDev = 3 : all triples as well                                      *)
+(* `pick` selects which member of a pool of concrete values the harness    *)
+(* uses for a variant (which near-miss, which case change, which padding): *)
+(* 0 everywhere, and every single header deviation that draws on a pool is *)
+(* repeated with picks 1 .. NPick-1 (action Repick).                       *)
 (* On every distinct state TLC checks the sanity theorems of the table and *)
 (* prints one line  <<"CASE", json>>  (invariant Emit).                    *)
 (*                                                                         *)
 (* The table factors through the verdict of each condition (Combine), so   *)
 (* the theorems over the FULL matrix (every method x path x 9^5 x 10       *)
-(* header variants x extension x configuration, 1.5e8 requests) are        *)
+(* header variants x extension x configuration, 7.6e8 requests) are        *)
 (* checked once, exhaustively, over the 3^9 verdict vectors (ASSUME).      *)
 (***************************************************************************)
 EXTENDS Upgrade, TLC, Json
 
-CONSTANT MaxDev
+CONSTANTS MaxDev, UseBackends, NPick
 
 VARIABLE c
 
@@ -34,16 +38,24 @@ Put(req, f, v) == CASE f = "method" -> [req EXCEPT !.method = v]
 Dom(f) == CASE f = "method" -> Methods [] f = "path" -> Paths [] f = "ext" -> BOOLEAN [] OTHER -> VariantsOf(f)
 Deviating(req) == {f \in Fields : Get(req, f) # Get(Valid, f)}
 
-Init == c \in [req : {Valid}, cfg : Cfgs]
+Pooled == {"case", "near", "dupgb", "dupbg", "list", "padded"}
+
+Init == c \in [req : {Valid}, cfg : [psk : BOOLEAN, obfs : BOOLEAN, backend : UseBackends], pick : {0}]
 Deviate ==
+  /\ c.pick = 0
   /\ Cardinality(Deviating(c.req)) < MaxDev
   /\ \E f \in Fields \ Deviating(c.req) :
        \E v \in Dom(f) \ {Get(Valid, f)} :
           c' = [c EXCEPT !.req = Put(c.req, f, v)]
-Next == Deviate
+Repick ==
+  /\ c.pick = 0
+  /\ Cardinality(Deviating(c.req)) = 1
+  /\ \E f \in HeaderNames : f \in Deviating(c.req) /\ c.req.h[f] \in Pooled
+  /\ \E p \in 1 .. (NPick - 1) : c' = [c EXCEPT !.pick = p]
+Next == Deviate \/ Repick
 Spec == Init /\ [][Next]_c
 
-TypeOK == c.req \in Requests /\ c.cfg \in Cfgs
+TypeOK == c.req \in Requests /\ c.cfg \in Cfgs /\ c.pick \in 0 .. (NPick - 1)
 Laws == Theorems(c.req, c.cfg)
 \* a single decided deviation from the valid request always leads to the fallback (no condition is redundant)
 Single ==
@@ -60,7 +72,7 @@ Single ==
                                           [] OTHER -> "either") )
        [] OTHER -> TRUE
 
-Emit == PrintT(<<"CASE", ToJson([req |-> c.req, cfg |-> c.cfg, exp |-> Expected(c.req, c.cfg),
+Emit == PrintT(<<"CASE", ToJson([req |-> c.req, cfg |-> c.cfg, pick |-> c.pick, exp |-> Expected(c.req, c.cfg),
                                  ndev |-> Cardinality(Deviating(c.req))])>>)
 
 (* ---------------- the theorems over the full matrix, through the verdict vectors ---------------- *)
